@@ -1148,6 +1148,8 @@ def check_shape(eng, s, tag):
     if tag.startswith("after-none-of:"):
         # the site lies only on the None edge of `callee(x)` for the same x whose other accessor is unwrapped here
         callee = tag.split(":", 1)[1]
+        no_fallback = callee.endswith("#noclo")
+        callee = callee.replace("#noclo", "")
         from kq.gf2 import root_desc
         recv = s.detail.get("recv")
         rd_site = None
@@ -1172,15 +1174,23 @@ def check_shape(eng, s, tag):
                 some_t = [tb for v, tb in tt["ts"] if v == 1] or ([tt["o"]] if any(v == 0 for v, _ in tt["ts"]) else [])
                 if some_t and s.bb not in fn.reach_from(some_t[0], avoid=[sb]) and fn.dominates(sb, s.bb):
                     return True, "only on the None edge of %s() of the same expression" % callee.split("::")[-1]
+        if not no_fallback:
+            ok2, why2 = check_shape(eng, s, "none-closure-of:" + callee + "#noaft")
+            if ok2:
+                return True, why2
         return False, "no longer confined to the None edge of %s() of the same expression" % callee.split("::")[-1]
     if tag.startswith("none-closure-of:"):
         # the site is inside a closure that only runs when `callee(..)` returned None: the closure is the argument of
         # Option::unwrap_or_else / or_else / map_or_else whose receiver derives from that call
         callee = tag.split(":", 1)[1]
+        no_fallback = callee.endswith("#noaft")
+        callee = callee.replace("#noaft", "")
         from kq.analysis import backward_slice
         par = eng.prog.fn_opt(norm_name(fn.iparent)) if getattr(fn, "iparent", None) else None
-        if par is None:
+        if par is None and no_fallback:
             return False, "not a closure"
+        if par is None:
+            return check_shape(eng, s, "after-none-of:" + callee + "#noclo")
         for bi, t in par.calls():
             if (callee_name(t) or "").split("::")[-1] not in ("unwrap_or_else", "or_else", "map_or_else", "ok_or_else"):
                 continue
@@ -1196,6 +1206,11 @@ def check_shape(eng, s, tag):
             _, cals, _ = backward_slice(par, t["args"][0])
             if callee in cals:
                 return True, "closure of %s on a value derived from %s()" % ((callee_name(t) or "").split("::")[-1], callee.split("::")[-1])
+        # the same thing written as `match x.atom() { Some(a) => .., None => x.list().expect(..) }`
+        if not no_fallback:
+            ok2, why2 = check_shape(eng, s, "after-none-of:" + callee + "#noclo")
+            if ok2:
+                return True, why2
         return False, "the closure is no longer the None-branch of %s()" % callee.split("::")[-1]
     if tag.startswith("dominated-by-call:"):
         callee = tag.split(":", 1)[1]
